@@ -20,7 +20,9 @@ func (k *Key) PGPEntity() *openpgp.Entity {
 		defer vhEntitiesMu.Unlock()
 		e, ok := vhEntities[k]
 		if !ok {
-			e = &openpgp.Entity{}
+			// a usable entity: it carries an identity (readOperationPack leaves entities
+			// without one out of the keyring, see Key.PGPEntity)
+			e = &openpgp.Entity{Identities: map[string]*openpgp.Identity{"vh": {Name: "vh"}}}
 			vhEntities[k] = e
 		}
 		return e
